@@ -853,7 +853,7 @@ func init() {
 			if tier == "thorough" {
 				return 100000
 			}
-			return 4000
+			return 16000
 		},
 		Run: c08RunWrapper,
 		Rule: "per case a nested context (structs with exported/unexported fields, value- and pointer-receiver methods, pointers incl. nil and pointer-to-pointer, maps with string/int/float/bool keys, slices, arrays, interfaces, *Value results, functions of every accepted shape: fixed arity, variadic, *Value parameters, implicit *ExecutionContext, (T, error), rejected shapes) and 20 access paths of up to 5 steps (valid and invalid at every position; dot names, numeric steps, calls with 0-3 arguments of all kinds, a final subscript that is a literal, a variable, arithmetic or a filtered expression), " +
